@@ -309,15 +309,20 @@ class Encoder(Coder):
                         value -= refval
                 values[idx] = value
 
+            values = self._all_ones_as_missing(values, nbits_min_value)
             min_value, max_value = state.minmax(values)
-            nbits_diff = nbits_for_uint(max_value - min_value + 1)
-            # Now subtract the minimum from the values
-            for idx, value in enumerate(values):
-                if value is None:
-                    value = NUMERIC_MISSING_VALUES[nbits_diff]
-                else:
-                    value -= min_value
-                values[idx] = value
+            if min_value is None:  # nothing but missing values
+                min_value = NUMERIC_MISSING_VALUES[nbits_min_value]
+                nbits_diff = 0
+            else:
+                nbits_diff = nbits_for_uint(max_value - min_value + 1)
+                # Now subtract the minimum from the values
+                for idx, value in enumerate(values):
+                    if value is None:
+                        value = NUMERIC_MISSING_VALUES[nbits_diff]
+                    else:
+                        value -= min_value
+                    values[idx] = value
 
         bit_writer.write_uint(min_value, nbits_min_value)
         bit_writer.write_uint(nbits_diff, NBITS_FOR_NBITS_DIFF)
@@ -392,15 +397,20 @@ class Encoder(Coder):
             min_value = values[0]
             nbits_diff = 0
         else:
+            values = self._all_ones_as_missing(values, nbits_min_value)
             min_value, max_value = state.minmax(values)
-            nbits_diff = nbits_for_uint(max_value - min_value + 1)
-            # Subtract the minimum from the values
-            for idx, value in enumerate(values):
-                if value is None:
-                    value = NUMERIC_MISSING_VALUES[nbits_diff]
-                else:
-                    value -= min_value
-                values[idx] = value
+            if min_value is None:  # nothing but missing values
+                min_value = NUMERIC_MISSING_VALUES[nbits_min_value]
+                nbits_diff = 0
+            else:
+                nbits_diff = nbits_for_uint(max_value - min_value + 1)
+                # Subtract the minimum from the values
+                for idx, value in enumerate(values):
+                    if value is None:
+                        value = NUMERIC_MISSING_VALUES[nbits_diff]
+                    else:
+                        value -= min_value
+                    values[idx] = value
 
         bit_writer.write_uint(min_value, nbits_min_value)
         bit_writer.write_uint(nbits_diff, NBITS_FOR_NBITS_DIFF)
@@ -471,6 +481,20 @@ class Encoder(Coder):
         """
         values, all_equal, all_missing = self._next_compressed_values_and_status_from_all_subsets(state, descriptor)
         assert all_equal and values[0] == value, '{}: Value for must be 0'.format(descriptor)
+
+    @staticmethod
+    def _all_ones_as_missing(values, nbits):
+        """
+        A value that coincides with the all-ones pattern of its field is the
+        missing value (there is none for fields of a single bit). For compressed
+        data it must be treated as such before the minimum is taken, otherwise
+        the minimum itself is written as missing together with a non-zero
+        width for the differences, which cannot be decoded.
+        """
+        if nbits <= 1:
+            return values
+        missing_value = 2 ** nbits - 1
+        return [None if value == missing_value else value for value in values]
 
     def _next_compressed_values_and_status_from_all_subsets(self, state, descriptor):
         """
